@@ -71,6 +71,23 @@ def run(rep, tier, args):
     if walks:
         rep.add_sample({"tlc_behaviour": walks[-1][:5]})
     rep.judge_trace(TRACE, CFG, tp, name="C45-b2", key_fn=key, timeout=3000)
+    # directed walks (fixed action sequences, validated like the others): a time-reading dry run that names the
+    # next height explicitly (at = latest + 1), repeated after wall-clock time has passed; at = latest (0) as control;
+    # once on the initial chain and once after a block
+    def dr(at, k="ok", c=2):
+        return {"a": "DryRun", "txs": [{"k": k, "c": c}], "at": at, "uv": -1, "rec": False, "gp": -1}
+    tick = {"a": "Tick"}
+    directed = [
+        [dr(2), tick, dr(2), dr(0), tick, dr(0)],
+        [{"a": "Submit", "k": "inc", "c": 1}, {"a": "Produce"}, dr(3), dr(0), dr(3, "inc", 3), tick, dr(3), dr(0),
+         dr(3, "inc", 3)],
+    ]
+    wpd = os.path.join(wd, "directed.ndjson")
+    vlib.write_walks(wpd, directed)
+    tpd = os.path.join(wd, "directed-trace.ndjson")
+    vlib.run_harness(hbin, ["run", "--walks", wpd, "--out", tpd])
+    rep.extra["directed_walks"] = len(directed)
+    rep.judge_trace(TRACE, CFG, tpd, name="C45-directed", key_fn=key, timeout=3000)
     # B3: seeded driver
     n, ln = (8, 40) if not thorough else (60, 60)
     tp3 = os.path.join(wd, "b3.ndjson")
